@@ -144,3 +144,81 @@ def serializer_family_arguments(ctx, clause):
                   "the factory builds a direct and an inverse serializer of both kinds" if combos >= want else
                   "the factory builds only %s" % sorted(combos)))
     return obs
+
+
+# ------------------------------------------------------------------------------------------------
+DIRECTION_PARAMS = ("is_inverse", "inverse")
+
+# callers that legitimately rely on the callee's default direction (False = direct): code that exists only for the
+# direct-only configuration, confirmed by reading
+DIRECT_ONLY_CLASSES = {
+    "DirectFeaturesStrategy": "profiling strategy instantiated only when inverse_paths is off",
+    "DirectShexingStrategy": "shexing strategy instantiated only when inverse_paths is off",
+}
+DIRECT_ONLY_SUFFIX = "_no_inverse"      # method slots bound when inverse_paths is off (ShexSerializer, ShapeExampleFeaturesDict)
+
+
+def _direct_only(f):
+    if f.cls is not None and f.cls.name in DIRECT_ONLY_CLASSES:
+        return DIRECT_ONLY_CLASSES[f.cls.name]
+    if f.name.endswith(DIRECT_ONLY_SUFFIX):
+        return "variant bound to its slot only when inverse_paths is off"
+    return None
+
+
+def explicit_direction(ctx, clause):
+    """R-PLUMB (direction): a callee that has a direction parameter (`is_inverse` / `inverse`) receives it explicitly at
+    every call site.  A silent default makes an inverse constraint be built, keyed or printed as a direct one; the only
+    callers allowed to rely on the default are the direct-only variants listed above."""
+    from ..resolve import bind_args
+    from ..core import parent_map
+    r = ctx.r
+    obs, n = [], 0
+    seen = set()
+    # the table of direct-only classes is what the code says: each is constructed only in the arm taken when the
+    # inverse option is off
+    for cname, why in DIRECT_ONLY_CLASSES.items():
+        sites = [cs for cs in r.callsites if cs.kind == "ctor" and cs.recv_types.name == cname]
+        good = bool(sites)
+        for cs in sites:
+            pm = parent_map(cs.func.node)
+            cur, arm_ok = cs.node, False
+            while cur in pm:
+                par = pm[cur]
+                if isinstance(par, ast.IfExp) and any(isinstance(x, ast.Name) and "inverse" in x.id for x in ast.walk(par.test)):
+                    neg = isinstance(par.test, ast.UnaryOp) and isinstance(par.test.op, ast.Not)
+                    arm_ok = (cur is par.body and neg) or (cur is par.orelse and not neg)
+                    break
+                cur = par
+            good = good and arm_ok
+        obs.append(Ob(clause, "R-CONST", "R-CONST|direct-only-class|%s" % cname, sites[0].func.loc(sites[0].node) if sites else "shexer:0", good,
+                      "%s is constructed only when the inverse option is off (%d site(s)): its callers may rely on the direct default" % (
+                          cname, len(sites)) if good else
+                      "%s is listed as direct-only but is constructed outside the `not inverse` arm" % cname))
+    for cs in r.callsites:
+        if not ctx.reachable(cs.func):
+            continue
+        for t in cs.targets or []:
+            ps = [x for x in list(t.bound_params) + list(t.kwonly) if x in DIRECTION_PARAMS]
+            if not ps:
+                continue
+            b = bind_args(cs.node, t)
+            if b.get("star"):
+                continue
+            for prm in ps:
+                key = "R-PLUMB|direction-explicit|%s->%s|%s" % (cs.func.short, t.short, prm)
+                if (key, id(cs.node)) in seen:
+                    continue
+                seen.add((key, id(cs.node)))
+                n += 1
+                passed = prm in b["bound"]
+                why = _direct_only(cs.func)
+                ok = passed or why is not None
+                obs.append(Ob(clause, "R-PLUMB", key, cs.func.loc(cs.node), ok,
+                              ("%s passes %s explicitly to %s" % (cs.func.short, prm, t.short) if passed else
+                               "%s relies on the default direction of %s (%s)" % (cs.func.short, t.short, why))
+                              if ok else
+                              "%s calls %s without `%s`: the callee falls back to its default direction, so an inverse "
+                              "constraint handled here is built / keyed / printed as a direct one (`%s`)" % (
+                                  cs.func.short, t.short, prm, norm(cs.node)[:70])))
+    return obs, n
